@@ -226,20 +226,35 @@ Theorem C01_lock_condition_sound : forall dur dist g v shift_start closed t j js
   eval_single_x dur dist g v shift_start closed t j js pos = ESuccess idx pl c -> zassoc (s_id j) (g_conds g) <> Some false.
 Proof. exact lock_condition_sound. Qed.
 
-(* the merge rule of the skills feature (vicinity clustering folds a candidate into a cluster that keeps the SOURCE's skills):
-   without a oneOf requirement of the candidate every vehicle allowed for the source is allowed for the candidate ... *)
-Theorem C01_skills_merge_sound_without_one_of : forall vs src cand,
-  merge_skills src cand = true -> SkillsSat vs (req_of src) -> r_one (req_of cand) = [] -> SkillsSat vs (req_of cand).
-Proof. exact merge_skills_sound_without_one_of. Qed.
+(* the merge rule of the skills feature (vicinity clustering folds a candidate into a cluster that keeps the SOURCE's skills) is
+   SOUND for all three sets: every vehicle that meets the requirement of the merged (= source) record meets the candidate's - so a
+   clustered job is never served by a vehicle without its skills.  (Records as JobSkills::new builds them: no empty oneOf set.) *)
+Theorem C01_skills_merge_sound : forall vs src cand,
+  merge_skills src cand = true -> (forall s, src = Some s -> js_one s <> Some []) ->
+  SkillsSat vs (req_of src) -> SkillsSat vs (req_of cand).
+Proof. exact merge_skills_sound. Qed.
 
-(* ... with one it need not be: the rule wants candidate.oneOf to be a SUBSET of source.oneOf (source {1,2}, candidate {1}: a
-   vehicle with skill 2 serves the cluster, the candidate's oneOf [1] is not met).  Replayed on the real
-   `SkillsConstraint::{merge, evaluate}` (c06_limits corpus case 8); reaching it end to end needs vicinity clustering, which the
-   end-to-end generator does not produce *)
-Theorem C01_skills_merge_one_of_refuted : exists vs src cand,
-  merge_skills src cand = true /\ eval_route_skills vs src = None /\ SkillsSat (olist vs) (req_of src) /\
-  eval_route_skills vs cand = Some (CODE_SKILLS, true) /\ ~ SkillsSat (olist vs) (req_of cand).
-Proof. exact merge_skills_one_of_refuted. Qed.
+(* the same in terms of the evaluator: a vehicle accepted by the route-level skills test for the merged job *)
+Theorem C01_skills_merge_accepted_vehicle_sound : forall vs src cand,
+  merge_skills src cand = true -> (forall s, src = Some s -> js_one s <> Some []) ->
+  eval_route_skills vs src = None -> SkillsSat (olist vs) (req_of cand).
+Proof. exact merge_skills_accepted_sound. Qed.
+
+(* finding C01-F10 (repaired in /repo by ee5718d): the rule as it WAS wanted candidate.oneOf to be a SUBSET of source.oneOf
+   (source {1,2}, candidate {1}: a vehicle with skill 2 serves the cluster, the candidate's oneOf [1] is not met); the repaired
+   rule refuses that pair.  Regression: c06_limits corpus case 8 and corpus/C01/extra/skills_one_of_clustered.json *)
+Theorem C01_skills_merge_one_of_prefix_refuted : exists vs src cand,
+  merge_skills_prefix src cand = true /\ eval_route_skills vs src = None /\ SkillsSat (olist vs) (req_of src) /\
+  eval_route_skills vs cand = Some (CODE_SKILLS, true) /\ ~ SkillsSat (olist vs) (req_of cand) /\
+  merge_skills src cand = false.
+Proof. exact merge_skills_one_of_prefix_refuted. Qed.
+
+(* the side condition of the two theorems is needed: an EMPTY oneOf set in the source (only constructible through the public
+   fields, never by the problem reader) is a subset of every candidate set *)
+Theorem C01_skills_merge_empty_one_of_witness :
+  let src := Some (mkJS None (Some []) None) in let cand := Some (mkJS None (Some [1]) None) in
+  merge_skills src cand = true /\ eval_route_skills None src = None /\ ~ SkillsSat [] (req_of cand).
+Proof. exact merge_skills_empty_one_of_witness. Qed.
 
 (* non-vacuity: see C06_limits_nonvacuous (a vehicle with all limits, skills and a strict lock; a history of two insertions) *)
 Theorem C01_limits_nonvacuous :
@@ -359,3 +374,18 @@ Proof.
   split; [exact (proj1 ex_required_break)|]. split; [exact (proj1 (proj2 ex_required_break))|].
   split; [exact (proj1 (proj2 (proj2 ex_required_break)))|exact (proj1 (proj2 (proj2 (proj2 ex_required_break))))].
 Qed.
+
+(* VICINITY CLUSTERING (Spec/ValidX.v part 3): for a tour with a clustered stop the feasibility rules are evaluated on the
+   activities attributed by kind and location (capacity per reload interval and in every dimension, skills, task order, limits
+   on the stop-to-stop distance and the duration, tour size with the clustered activities of a stop counted as one), plus two
+   rules of their own, each sound and complete for its declarative statement: every job activity starts inside a time window of
+   a place (at its location) of the task it serves, and every cluster member lies within clustering.threshold of its stop *)
+Theorem C01_cluster_windows_checker_sound_complete : forall k r, window_viol k r = [] <-> WindowsKept r.
+Proof. exact window_viol_nil. Qed.
+
+Theorem C01_cluster_threshold_checker_sound_complete : forall P X c xt k t, xp_cluster X = Some c ->
+  (threshold_viol P X xt k t = [] <-> WithinThreshold P c xt t).
+Proof. exact threshold_viol_nil. Qed.
+
+Theorem C01_nonvacuous_cluster : valid4 ex_Xc ex_XSc ex_Pc ex_Sc = [] /\ is_cluster_tour (xt_of ex_XSc 0) = true.
+Proof. exact (conj (proj1 ex_cluster) (proj2 (proj2 (proj2 (proj2 ex_cluster))))). Qed.
